@@ -858,3 +858,44 @@ func init() {
 		},
 	})
 }
+
+// ruleMulOvf: a product of two non-constant 64-bit integers (a count of objects obtained by
+// multiplying sizes) wraps silently; it must be bounded by E-PROVE or formed with a checked idiom.
+func ruleMulOvf(c *Ctx, pkgRel string) *RuleResult {
+	r := &RuleResult{Rule: "MULOVF", Doc: "no product of two non-constant 64-bit integers is formed unless it is proved to stay in range (a precomputed number of objects overflows long before the objects run out)", MinInst: 0}
+	for _, fn := range c.Funcs {
+		p := fnPkg(fn)
+		if p == nil || p.Pkg.Path() != c.Mod+"/"+pkgRel || fn.Synthetic != "" || fn.Blocks == nil {
+			continue
+		}
+		var P *Prover
+		for _, b := range fn.Blocks {
+			for _, in := range b.Instrs {
+				bo, ok := in.(*ssa.BinOp)
+				if !ok || bo.Op != token.MUL || !isInt(bo.Type()) || intBits(bo.Type()) < 64 {
+					continue
+				}
+				if _, isK := constInt(strip(bo.X)); isK {
+					continue
+				}
+				if _, isK := constInt(strip(bo.Y)); isK {
+					continue
+				}
+				if P == nil {
+					P = NewProver(c, fn)
+				}
+				desc := c.srcAt(bo.Pos())
+				if desc == "" {
+					desc = fmt.Sprintf("%s * %s", valName(bo.X), valName(bo.Y))
+				}
+				r.inst("%s: %s", c.short(fn), desc)
+				how := boundedByValue(P, bo, b)
+				r.oblig(how != "")
+				if how == "" {
+					r.find(c.short(fn)+":product "+desc, c.instrPos(bo), "%s: the product %s of two non-constant operands can exceed the range of %s and wrap silently; nothing bounds it", c.short(fn), desc, typeShort(bo.Type()))
+				}
+			}
+		}
+	}
+	return r
+}
